@@ -56,6 +56,8 @@ theorem swB_ctrans_ttl {b b' : BState} {i : Nat} (h : CTrans b i b') :
   case getPool hp => rw [poolAdd_frame hp]; exact ⟨rfl, Or.inl rfl⟩
   case refPool hp => rw [poolAdd_frame hp]; exact ⟨rfl, Or.inl rfl⟩
   case shutLocal hg => rw [hg]; exact ⟨rfl, Or.inl rfl⟩
+  case mgetStep hg => rw [hg]; exact ⟨rfl, Or.inl rfl⟩
+  case mgetFin hg => rw [hg]; exact ⟨rfl, Or.inl rfl⟩
   case upAfterSame => exact ⟨(swB_upAfterIndex_g _ _ _ _).2, Or.inl (swB_upAfterIndex_g _ _ _ _).1⟩
   case upAfterPut pc id e uw hpc hu hfree =>
     refine ⟨(swB_upAfterIndex_g _ _ _ _).2, Or.inr (Or.inl ⟨_, id, e, swB_ttlFree hfree, ?_⟩)⟩
